@@ -3,21 +3,41 @@ From Coq Require Import List Bool.
 From KV.Wait Require Import Ir GenWait Model Explore Systems WaitLemmas.
 Import ListNotations.
 
-Lemma write_tm_checked : forall a, let d := sys_tm skel Writer a in scheck d (tm_inv d) = true.
-Proof. intros []; vm_cast_no_check (eq_refl true). Qed.
-Lemma write_one_checked : forall a, let d := sys_1 skel Writer a in scheck d (one_inv Writer d) = true.
-Proof. intros []; vm_cast_no_check (eq_refl true). Qed.
 Lemma write_oned_checked : forall a, let d := sys_1d skel Writer a in scheck d (oned_inv d) = true.
 Proof. intros []; vm_cast_no_check (eq_refl true). Qed.
 (* F11 and F12 repaired: the FULL deadline-change statement (every setter value, incl. clearing) *)
-Lemma write_full_checked : forall a, let d := sys_1 skel Writer a in scheck d (fixed_one_inv Writer d) = true.
-Proof. intros []; vm_cast_no_check (eq_refl true). Qed.
 Lemma write_rearm_checked : forall a, let d := sys_rearm skel Writer a in scheck d (rearm_inv d) = true.
 Proof. intros []; vm_cast_no_check (eq_refl true). Qed.
 
 (* stale-timer timeouts repaired: a timeout is returned only when the deadline stored at that
    moment has passed (the strong reading; boundary B11 is closed) *)
-Lemma write_strong_tm_checked : forall a, let d := sys_tm skel Writer a in scheck d (strong_tm_inv d) = true.
+(* the deadline-change broadcast, thread-modular: ONE call against everything the rest of the program can
+   do to it follows every deadline change (change_inv) - hence any number of callers; the same exploration
+   carries the per-call safety bundles (change_tm_inv = [strong_tm_inv; change_inv]) *)
+Lemma write_change_tm_checked : forall a, let d := sys_tm skel Writer a in scheck d (change_tm_inv d) = true.
 Proof. intros []; vm_cast_no_check (eq_refl true). Qed.
+Lemma write_strong_tm_checked : forall a, let d := sys_tm skel Writer a in scheck d (strong_tm_inv d) = true.
+Proof.
+  intros a d. apply (scheck_weaken d (change_tm_inv d)); [|apply write_change_tm_checked].
+  apply inv_and_member. simpl; tauto.
+Qed.
 Lemma write_strong_one_checked : forall a, let d := sys_1 skel Writer a in scheck d (strong_one_inv Writer d) = true.
 Proof. intros []; vm_cast_no_check (eq_refl true). Qed.
+
+(* the weaker bundles on the same systems follow from the explorations above (WaitLemmas.scheck_weaken):
+   strong_tm_inv = [tm_inv; ..], strong_one_inv = [fixed_one_inv; ..], fixed_one_inv = [one_inv; ..] *)
+Lemma write_tm_checked : forall a, let d := sys_tm skel Writer a in scheck d (tm_inv d) = true.
+Proof.
+  intros a d. apply (scheck_weaken d (strong_tm_inv d)); [|apply write_strong_tm_checked].
+  apply inv_and_member. simpl; tauto.
+Qed.
+Lemma write_full_checked : forall a, let d := sys_1 skel Writer a in scheck d (fixed_one_inv Writer d) = true.
+Proof.
+  intros a d. apply (scheck_weaken d (strong_one_inv Writer d)); [|apply write_strong_one_checked].
+  apply inv_and_member. simpl; tauto.
+Qed.
+Lemma write_one_checked : forall a, let d := sys_1 skel Writer a in scheck d (one_inv Writer d) = true.
+Proof.
+  intros a d. apply (scheck_weaken d (fixed_one_inv Writer d)); [|apply write_full_checked].
+  apply inv_and_member. simpl; tauto.
+Qed.
